@@ -108,26 +108,66 @@ def root_stores(a):
     return None
 
 
-def entry(a, idx, env=None):
+def _operand_entry(o, a, idx, env):
+    """entry of an operand of an element-wise operation whose result has the shape of `a` (NumPy broadcasting: trailing axes, unit axes repeat)"""
+    if isinstance(o, (int, float, complex)) and not isinstance(o, bool):
+        return ('num', o)
+    if not isinstance(o, Arr):
+        return UNKNOWN
+    oi = idx[len(idx) - o.ndim:] if o.ndim else []
+    oi = [0 if A.is_one(n) and not A.is_one(m_) else q for q, n, m_ in zip(oi, o.shape, a.shape[len(a.shape) - o.ndim:])]
+    return entry(o, oi, env)
+
+
+def entry(a, idx, env=None, _before=None):
+    """_before = n: the content the array had before the n-th write into its buffer (used to undo whole-array in-place operations)"""
     env = env or {}
     if isinstance(a, (int, float, complex)):
         return ('num', a) if not idx else UNKNOWN
     if not isinstance(a, Arr):
         return UNKNOWN
     idx = list(idx)
+    ops = a.tags.get('inplace_ops')
+    if ops and _before is None and a.ndim == len(idx):
+        # x op= v  on a computed array: every write into the buffer must be one of these whole-array operations, applied in order to the original content
+        if len(a.buf.writes) != len(ops) or [n_ for _, _, n_ in ops] != list(range(1, len(ops) + 1)):
+            return UNKNOWN
+        cur = entry(a, idx, env, _before=0)
+        for name, o, _n in ops:
+            oe = _operand_entry(o, a, idx, env)
+            if name == 'mul':
+                cur = prod_([cur, oe])
+            elif name == 'add':
+                cur = sum_([cur, oe])
+            else:
+                return UNKNOWN
+        return cur
     if a.ndim != len(idx):
         # numpy broadcasting of a value with fewer axes: leading positions are ignored
         if a.ndim < len(idx):
             idx = idx[len(idx) - a.ndim:]
         else:
             return UNKNOWN
+    # ---- element-wise products / sums of values that have not been written to since
+    ex = a.tags.get('expr')
+    if ex is not None and ex[0] in ('mul', 'add') and a.origin == ex[0] and (not a.buf.writes or _before == 0):
+        parts = [_operand_entry(o, a, idx, env) for o in ex[1]]
+        return prod_(parts) if ex[0] == 'mul' else sum_(parts)
     # ---- leaves
+    if 'basis' in a.tags and a.ndim == 1 and a.tags.get('vectorised'):
+        # a basis function CALLED ON THE WHOLE DATA MATRIX: component idx[0] of f(x).  This is f(x[:, j]) only for functions that happen to be written
+        # column-wise; a Function R^d -> R defined at a point (e.g. t -> sum(t**2)) reduces over all snapshots.  The two are kept apart.
+        pt = point(a.tags.get('point'), env)
+        if pt is None:
+            return UNKNOWN
+        return ('basis', tuple(a.tags['basis']) + ('called on the whole data matrix, component', str(idx[0])), pt)
     if a.ndim == 0:
         if 'basis' in a.tags:
             return ('basis', a.tags['basis'], point(a.tags.get('point'), env))
         if 'value' in a.tags and isinstance(a.tags['value'], (int, float, complex)):
             return ('num', a.tags['value'])
-        return UNKNOWN
+        if not (a.origin == 'getitem' and 'sel_of' in a.tags):
+            return UNKNOWN
     if a.tags.get('const') == 'eye' and a.ndim == 2 and a.origin in ('eye', 'transpose', 'copy', 'astype'):
         return ('delta', idx[0], idx[1])
     # ---- outer products and contractions over a concrete index
@@ -181,8 +221,10 @@ def entry(a, idx, env=None):
         if added:
             base = [s_ for s_ in alloc.tags.get('stores', []) if s_.get('mode') != 'add']
             if base or alloc.tags.get('alloc') != 'zeros':
-                return UNKNOWN                     # accumulation on top of explicit stores: not needed so far
+                return _fold_stores(alloc, idx, env)          # accumulation on top of explicit stores
             return sum_(added)
+        if any(st.get('mode') not in (None, 'set', 'add') for st in alloc.tags.get('stores', [])):
+            return _fold_stores(alloc, idx, env)
         for st in reversed(alloc.tags.get('stores', [])):
             e2, rel, ok = env, [], True
             for ax, s in enumerate(st['sel']):
@@ -263,6 +305,40 @@ def entry(a, idx, env=None):
     return UNKNOWN
 
 
+def _fold_stores(alloc, idx, env):
+    """content of a position of an allocated array after all stores / in-place operations, applied in program order"""
+    cur = ('zero',) if alloc.tags.get('alloc') == 'zeros' else ('num', 1)
+    for st in alloc.tags.get('stores', []):
+        e2, rel, ok = env, [], True
+        for ax, s_ in enumerate(st['sel']):
+            c, r, e2 = covers(s_, idx[ax], alloc.shape[ax], e2)
+            if c is None:
+                ok = None
+                break
+            if not c:
+                ok = False
+                break
+            if s_[0] != 'int':
+                rel.append(r)
+        if ok is False:
+            continue
+        if ok is None:
+            cur = UNKNOWN          # the store may or may not hit the position; a later definite assignment makes the content known again
+            continue
+        v = st['value']
+        val = entry(v, rel, e2) if isinstance(v, Arr) else (('num', v) if isinstance(v, (int, float, complex)) and not isinstance(v, bool) else UNKNOWN)
+        mode = st.get('mode')
+        if mode in (None, 'set'):
+            cur = val
+        elif mode == 'add':
+            cur = sum_([cur, val])
+        elif mode == 'mul':
+            cur = prod_([cur, val])
+        else:
+            cur = UNKNOWN
+    return cur
+
+
 def prod_(fs):
     if any(f is None for f in fs):
         return UNKNOWN
@@ -271,6 +347,11 @@ def prod_(fs):
     flat = []
     for f in fs:
         flat.extend(f[1] if f[0] == 'prod' else [f])
+    flat = [f for f in flat if not (f[0] == 'num' and f[1] == 1)]
+    if not flat:
+        return ('num', 1)
+    if len(flat) == 1:
+        return flat[0]
     return ('prod', tuple(sorted(flat, key=repr)))
 
 
